@@ -614,4 +614,9 @@ theorem C05_full_statement_false_miss :
 example : GraphOK (Graph.insertAsset [] (.asset ⟨0, "a"⟩) [.file "a" "s"]) :=
   C05_insert_keeps_inverse [] graphOK_nil _ _
 
+/-- "After `hot_reload` returns" means after the caller's OWN request was served: `Answers::wait_for_answer` waits with the
+crate's `Condvar::wait_while`, which re-checks the token after every wake-up in both lock implementations (one condition
+variable is shared by all callers and woken with `notify_all`). -/
+theorem C05_wait_while_rechecks : waitWhileRechecksStd = true ∧ waitWhileRechecksParkingLot = true := by decide
+
 end AmVerif.Props.C05
